@@ -1,2 +1,439 @@
-(* C06 proofs: invariants of the writer state machine of Formats/Gltf.v. *)
+(* C06 proofs: invariants of the writer state machine of Formats/Gltf.v.
+   Part A: the buffer side of the state (views, accessors, bytes written) is a function of the list of
+   chunks written so far ([canon]); tiling, fitting and decoding are then facts about that function. *)
 From PF Require Import Base.Bytes Base.BytesProofs Formats.Gltf.
+From Coq Require Import ZifyN ZifyNat ZifyBool.
+From Coq Require String.
+Import String.StringSyntax.
+Delimit Scope string_scope with string.
+Ltac Zify.zify_post_hook ::= Z.div_mod_to_equations.
+Open Scope list_scope.
+Open Scope N_scope.
+
+(* ------------------------------------------------------------------ canonical form *)
+Definition is_idx_comp (c : comp) : bool := match c with CUShort | CUInt => true | _ => false end.
+Definition ck_count (ck : chunk) : N := vcount (ck_data ck).
+Definition ck_size (ck : chunk) : N := ck_count ck * ck_k ck * comp_size (ck_comp ck).
+Fixpoint total (cks : list chunk) : N := match cks with [] => 0 | ck :: r => ck_size ck + total r end.
+
+Definition view_of (off : N) (ck : chunk) : view :=
+  {| v_buf := 0; v_off := off; v_len := ck_size ck;
+     v_target := if is_idx_comp (ck_comp ck) then 34963 else 34962 |}.
+Definition acc_of (i : N) (ck : chunk) : accessor :=
+  {| a_view := Some i; a_off := 0; a_comp := comp_code (ck_comp ck); a_k := ck_k ck; a_count := ck_count ck;
+     a_min := if is_idx_comp (ck_comp ck) then [] else fst (minmax (ck_comp ck) (ck_k ck) (ck_data ck));
+     a_max := if is_idx_comp (ck_comp ck) then [] else snd (minmax (ck_comp ck) (ck_k ck) (ck_data ck)) |}.
+Fixpoint views_of (off : N) (cks : list chunk) : list view :=
+  match cks with [] => [] | ck :: r => view_of off ck :: views_of (off + ck_size ck) r end.
+Fixpoint accs_of (i : N) (cks : list chunk) : list accessor :=
+  match cks with [] => [] | ck :: r => acc_of i ck :: accs_of (i + 1) r end.
+
+Definition canon (b : bufst) : Prop :=
+  b_views b = views_of 0 (b_chunks b) /\ b_accs b = accs_of 0 (b_chunks b) /\ b_written b = total (b_chunks b).
+
+Lemma total_app a b : total (a ++ b) = total a + total b.
+Proof. induction a; cbn [total app]; lia. Qed.
+Lemma views_of_app off a b : views_of off (a ++ b) = views_of off a ++ views_of (off + total a) b.
+Proof.
+  revert off; induction a as [|x a IH]; intros off; cbn [views_of app total].
+  - f_equal. lia.
+  - rewrite IH. do 3 f_equal. lia.
+Qed.
+Lemma accs_of_app i a b : accs_of i (a ++ b) = accs_of i a ++ accs_of (i + len a) b.
+Proof.
+  revert i; induction a as [|x a IH]; intros i; cbn [accs_of app].
+  - f_equal. unfold len. cbn. lia.
+  - rewrite IH. do 3 f_equal. unfold len. cbn [length]. lia.
+Qed.
+Lemma views_of_length off cks : length (views_of off cks) = length cks.
+Proof. revert off; induction cks; intros; cbn [views_of length]; auto. Qed.
+Lemma accs_of_length i cks : length (accs_of i cks) = length cks.
+Proof. revert i; induction cks; intros; cbn [accs_of length]; auto. Qed.
+
+Lemma vcount_plain (l : list elem) : vcount (plain l) = len l.
+Proof.
+  unfold vcount, plain, len. induction l; cbn [map fold_right length fst]; [reflexivity|].
+  rewrite IHl. lia.
+Qed.
+
+Lemma canon_init : canon init_b.
+Proof. repeat split. Qed.
+
+Lemma canon_write_vec k c d b : is_idx_comp c = false -> canon b -> canon (write_vec k c d b).
+Proof.
+  intros Hc (Hv & Ha & Hw). unfold canon, write_vec. cbn [b_views b_accs b_written b_chunks].
+  rewrite views_of_app, accs_of_app, total_app. cbn [views_of accs_of total].
+  rewrite Hv, Ha, Hw. unfold view_of, acc_of, ck_size, ck_count. cbn [ck_comp ck_k ck_data]. rewrite Hc.
+  unfold len. rewrite ?views_of_length, ?accs_of_length, !N.add_0_l, ?N.add_0_r.
+  repeat split; reflexivity.
+Qed.
+
+Lemma index_comp_idx n : is_idx_comp (index_comp n) = true.
+Proof. unfold index_comp. destruct (65535 <? n); reflexivity. Qed.
+
+Lemma canon_write_indices idx n b : canon b -> canon (write_indices idx n b).
+Proof.
+  intros (Hv & Ha & Hw). unfold canon, write_indices. cbn [b_views b_accs b_written b_chunks].
+  rewrite views_of_app, accs_of_app, total_app. cbn [views_of accs_of total].
+  rewrite Hv, Ha, Hw. unfold view_of, acc_of, ck_size, ck_count. cbn [ck_comp ck_k ck_data].
+  rewrite index_comp_idx, vcount_plain. unfold len. rewrite ?views_of_length, ?accs_of_length, ?map_length, !N.add_0_l, ?N.add_0_r, !N.mul_1_r.
+  repeat split; reflexivity.
+Qed.
+
+(* a canonical buffer state is determined by its chunk list *)
+Definition of_chunks (cks : list chunk) : bufst :=
+  {| b_written := total cks; b_chunks := cks; b_accs := accs_of 0 cks; b_views := views_of 0 cks |}.
+Lemma canon_of_chunks b : canon b -> b = of_chunks (b_chunks b).
+Proof. destruct b as [w c a v]. unfold canon, of_chunks. cbn. intros (-> & -> & ->). reflexivity. Qed.
+Lemma of_chunks_canon cks : canon (of_chunks cks).
+Proof. repeat split. Qed.
+
+Definition vec_chunk (k : N) (c : comp) (d : vdata) : chunk := {| ck_comp := c; ck_k := k; ck_data := d |}.
+Definition idx_chunk (idx : list N) (attr_len : N) : chunk :=
+  let c := index_comp attr_len in {| ck_comp := c; ck_k := 1; ck_data := plain (map (fun i => [index_word c i]) idx) |}.
+
+Lemma write_vec_of k c d cks : is_idx_comp c = false ->
+  write_vec k c d (of_chunks cks) = of_chunks (cks ++ [vec_chunk k c d]).
+Proof.
+  intros Hc. pose proof (canon_write_vec k c d _ Hc (of_chunks_canon cks)) as H.
+  apply canon_of_chunks in H. exact H.
+Qed.
+Lemma write_indices_of idx n cks :
+  write_indices idx n (of_chunks cks) = of_chunks (cks ++ [idx_chunk idx n]).
+Proof.
+  pose proof (canon_write_indices idx n _ (of_chunks_canon cks)) as H.
+  apply canon_of_chunks in H. exact H.
+Qed.
+
+Lemma attr_comp_not_idx name : is_idx_comp (attr_comp name) = false.
+Proof. unfold attr_comp. destruct (String.eqb name "Joint"%string); reflexivity. Qed.
+
+Lemma len_accs_of_chunks cks : len (b_accs (of_chunks cks)) = len cks.
+Proof. unfold len. cbn [b_accs of_chunks]. rewrite accs_of_length. reflexivity. Qed.
+
+(* attribute table built by the three WriteVector loops of AddMesh *)
+Fixpoint attrs_from (i : N) (attrs : list (string * vdata)) (a : list (string * N)) : list (string * N) :=
+  match attrs with [] => a | nv :: r => attrs_from (i + 1) r (amap_set (gltf_name (fst nv)) i a) end.
+Definition attr_chunk (k : N) (nv : string * vdata) : chunk := vec_chunk k (attr_comp (fst nv)) (snd nv).
+
+Lemma len_snoc {A} (l : list A) x : len (l ++ [x]) = len l + 1.
+Proof. unfold len. rewrite app_length. cbn [length]. lia. Qed.
+
+Lemma write_attrs_of k attrs a cks :
+  write_attrs k attrs (a, of_chunks cks)
+  = (attrs_from (len cks) attrs a, of_chunks (cks ++ map (attr_chunk k) attrs)).
+Proof.
+  unfold write_attrs. revert a cks. induction attrs as [|nv r IH]; intros a cks; cbn [fold_left attrs_from map].
+  - rewrite app_nil_r. reflexivity.
+  - cbn [fst snd]. rewrite len_accs_of_chunks, write_vec_of by apply attr_comp_not_idx.
+    rewrite IH. rewrite len_snoc, <- app_assoc. reflexivity.
+Qed.
+
+Definition mesh_chunks (m : pmesh) : list chunk :=
+  map (attr_chunk 4) (me_v4 m) ++ map (attr_chunk 3) (me_v3 m) ++ map (attr_chunk 2) (me_v2 m)
+  ++ [idx_chunk (me_idx m) (attr_len m)].
+Definition mesh_attrs (i : N) (m : pmesh) : list (string * N) :=
+  attrs_from (i + len (me_v4 m) + len (me_v3 m)) (me_v2 m)
+    (attrs_from (i + len (me_v4 m)) (me_v3 m) (attrs_from i (me_v4 m) [])).
+Definition mesh_idx_pos (i : N) (m : pmesh) : N := i + len (me_v4 m) + len (me_v3 m) + len (me_v2 m).
+
+Lemma len_app' {A} (a b : list A) : len (a ++ b) = len a + len b.
+Proof. unfold len. rewrite app_length. lia. Qed.
+Lemma len_map {A B} (f : A -> B) l : len (map f l) = len l.
+Proof. unfold len. rewrite map_length. reflexivity. Qed.
+
+Lemma write_mesh_data_of m cks :
+  write_mesh_data m (of_chunks cks)
+  = ((mesh_attrs (len cks) m, mesh_idx_pos (len cks) m), of_chunks (cks ++ mesh_chunks m)).
+Proof.
+  unfold write_mesh_data. rewrite !write_attrs_of. cbn [fst snd].
+  rewrite len_accs_of_chunks, write_indices_of.
+  unfold mesh_attrs, mesh_idx_pos, mesh_chunks. rewrite !len_app', !len_map, <- !app_assoc. reflexivity.
+Qed.
+
+Definition inst_chunks (ins : list pinst) : list chunk :=
+  [vec_chunk 3 CFloat (plain (map in_t ins)); vec_chunk 3 CFloat (plain (map in_s ins));
+   vec_chunk 4 CFloat (plain (map in_r ins))].
+Lemma write_instances_of ins cks :
+  write_instances ins (of_chunks cks)
+  = ([("TRANSLATION"%string, len cks); ("SCALE"%string, len cks + 1); ("ROTATION"%string, len cks + 2)],
+     of_chunks (cks ++ inst_chunks ins)).
+Proof.
+  unfold write_instances. cbv zeta.
+  rewrite !write_vec_of by reflexivity. rewrite !len_accs_of_chunks, !len_snoc.
+  unfold inst_chunks. rewrite <- !app_assoc. cbn [app].
+  replace (len cks + 1 + 1) with (len cks + 2) by lia. reflexivity.
+Qed.
+
+(* ------------------------------------------------------------------ the whole writer keeps the buffer canonical *)
+Lemma add_material_b m s : st_b (snd (add_material m s)) = st_b s.
+Proof.
+  unfold add_material. destruct (find_mat m (st_mat_tab s)); [reflexivity|].
+  destruct (build_material m (st_x s)). reflexivity.
+Qed.
+
+Lemma mesh_data_b m s : canon (st_b s) ->
+  snd (fst (mesh_data m s)) = st_b s \/
+  (lookupN (me_ptr m) (st_wr_tab s) = None /\
+   mesh_data m s = ((mesh_attrs (len (b_chunks (st_b s))) m, mesh_idx_pos (len (b_chunks (st_b s))) m),
+                    of_chunks (b_chunks (st_b s) ++ mesh_chunks m),
+                    (me_ptr m, (mesh_attrs (len (b_chunks (st_b s))) m, mesh_idx_pos (len (b_chunks (st_b s))) m))
+                      :: st_wr_tab s)).
+Proof.
+  intros Hc. unfold mesh_data. destruct (lookupN _ _) as [ai|]; [left; reflexivity|].
+  right. split; [reflexivity|]. rewrite (canon_of_chunks _ Hc) at 1. rewrite write_mesh_data_of. reflexivity.
+Qed.
+
+Lemma resolve_material_b mo s : st_b (snd (resolve_material mo s)) = st_b s.
+Proof.
+  unfold resolve_material. destruct (mo_mat mo) as [pm|]; [|reflexivity].
+  pose proof (add_material_b pm s) as E. destruct (add_material pm s). exact E.
+Qed.
+
+(* every step of the writer appends chunks to a canonical buffer state; the appended chunks satisfy [P]
+   whenever the models satisfy [Q] *)
+Section Extends.
+Variable P : chunk -> Prop.
+Variable Q : pmodel -> Prop.
+Hypothesis Q_mesh : forall mo, Q mo -> Forall P (mesh_chunks (mo_mesh mo)).
+Hypothesis Q_inst : forall mo, Q mo -> Forall P (inst_chunks (mo_inst mo)).
+
+Definition extends (b b' : bufst) : Prop := exists ext, Forall P ext /\ b' = of_chunks (b_chunks b ++ ext).
+Lemma extends_refl b : canon b -> extends b b.
+Proof. intros H. exists []. split; [constructor|]. rewrite app_nil_r. apply canon_of_chunks, H. Qed.
+Lemma extends_canon b b' : extends b b' -> canon b'.
+Proof. intros (e & _ & ->). apply of_chunks_canon. Qed.
+Lemma extends_trans a b c : extends a b -> extends b c -> extends a c.
+Proof.
+  intros (e1 & H1 & ->) (e2 & H2 & ->). exists (e1 ++ e2). split; [apply Forall_app; auto|].
+  cbn [b_chunks of_chunks]. rewrite app_assoc. reflexivity.
+Qed.
+
+Lemma place_mesh_b mo mati s : Q mo -> canon (st_b s) -> extends (st_b s) (st_b (snd (place_mesh mo mati s))).
+Proof.
+  intros HQ Hc. unfold place_mesh. destruct (find_mesh _ _); [apply extends_refl, Hc|].
+  destruct (mesh_data_b (mo_mesh mo) s Hc) as [E|(_ & E)].
+  - destruct (mesh_data (mo_mesh mo) s) as [[ai b] wr]. cbn [fst snd st_b] in *. subst b. apply extends_refl, Hc.
+  - rewrite E. cbn [snd st_b]. eexists. split; [apply Q_mesh, HQ|reflexivity].
+Qed.
+
+Lemma add_mesh_b mo s : Q mo -> canon (st_b s) -> extends (st_b s) (st_b (snd (add_mesh mo s))).
+Proof.
+  intros HQ Hc. unfold add_mesh. destruct (prim_count (mo_mesh mo) =? 0); [apply extends_refl, Hc|].
+  pose proof (resolve_material_b mo s) as E. destruct (resolve_material mo s) as [mati s1]. cbn [snd] in E.
+  rewrite <- E. apply place_mesh_b; [exact HQ|]. rewrite E. exact Hc.
+Qed.
+
+Lemma add_node_b mo mi s : Q mo -> canon (st_b s) -> extends (st_b s) (st_b (add_node mo mi s)).
+Proof.
+  intros HQ Hc. unfold add_node, node_inst. pose proof (Q_inst mo HQ) as HI. destruct (mo_inst mo) as [|i0 ins].
+  - apply extends_refl, Hc.
+  - rewrite (canon_of_chunks _ Hc). rewrite write_instances_of. cbn [st_b]. eexists. split; [exact HI|reflexivity].
+Qed.
+
+Lemma add_model_b s mo : Q mo -> canon (st_b s) -> extends (st_b s) (st_b (add_model s mo)).
+Proof.
+  intros HQ Hc. unfold add_model. pose proof (add_mesh_b mo s HQ Hc) as E.
+  destruct (add_mesh mo s) as [[mi|] s1]; cbn [snd] in E; [|exact E].
+  eapply extends_trans; [exact E|]. apply add_node_b; [exact HQ|]. eapply extends_canon, E.
+Qed.
+
+Lemma fold_models_b ms s : Forall Q ms -> canon (st_b s) -> extends (st_b s) (st_b (fold_left add_model ms s)).
+Proof.
+  revert s. induction ms as [|mo r IH]; intros s HQ Hc; cbn [fold_left]; [apply extends_refl, Hc|].
+  inversion HQ as [|? ? HQ1 HQ2]; subst.
+  pose proof (add_model_b s mo HQ1 Hc) as E. eapply extends_trans; [exact E|]. apply IH; [exact HQ2|]. eapply extends_canon, E.
+Qed.
+End Extends.
+
+Lemma add_light_b s l : st_b (add_light s l) = st_b s.
+Proof. reflexivity. Qed.
+Lemma fold_lights_b ls s : st_b (fold_left add_light ls s) = st_b s.
+Proof. revert s. induction ls as [|l r IH]; intros s; cbn [fold_left]; [reflexivity|]. rewrite IH. reflexivity. Qed.
+
+Theorem run_chunks (P : chunk -> Prop) (Q : pmodel -> Prop) :
+  (forall mo, Q mo -> Forall P (mesh_chunks (mo_mesh mo))) ->
+  (forall mo, Q mo -> Forall P (inst_chunks (mo_inst mo))) ->
+  forall sc, Forall Q (sc_models sc) ->
+  exists cks, Forall P cks /\ st_b (run sc) = of_chunks cks.
+Proof.
+  intros H1 H2 sc HQ. unfold run, add_scene. rewrite fold_lights_b.
+  destruct (fold_models_b P Q H1 H2 (sc_models sc) init HQ canon_init) as (ext & HP & E).
+  exists ext. split; [exact HP|]. rewrite E. reflexivity.
+Qed.
+
+Theorem canon_run sc : canon (st_b (run sc)).
+Proof.
+  destruct (run_chunks (fun _ => True) (fun _ => True)) with (sc := sc) as (cks & _ & E).
+  - intros. apply Forall_forall. auto.
+  - intros. apply Forall_forall. auto.
+  - apply Forall_forall. auto.
+  - rewrite E. apply of_chunks_canon.
+Qed.
+
+(* ------------------------------------------------------------------ facts about canonical views / accessors *)
+(* consecutive views: each starts where the previous one ends *)
+Inductive tiles : N -> list view -> N -> Prop :=
+| tiles_nil off : tiles off [] off
+| tiles_cons off v r e : v_buf v = 0 -> v_off v = off -> tiles (off + v_len v) r e -> tiles off (v :: r) e.
+
+Lemma tiles_views_of off cks : tiles off (views_of off cks) (off + total cks).
+Proof.
+  revert off. induction cks as [|ck r IH]; intros off; cbn [views_of total].
+  - rewrite N.add_0_r. constructor.
+  - constructor; [reflexivity|reflexivity|]. cbn [v_len view_of]. rewrite N.add_assoc. apply IH.
+Qed.
+
+Lemma views_of_range off cks v : In v (views_of off cks) ->
+  v_buf v = 0 /\ off <= v_off v /\ v_off v + v_len v <= off + total cks.
+Proof.
+  revert off. induction cks as [|ck r IH]; intros off; cbn [views_of total In]; [tauto|].
+  intros [<-|H].
+  - cbn [view_of v_buf v_off v_len]. lia.
+  - apply IH in H. lia.
+Qed.
+
+Lemma views_disjoint_of off cks : views_disjoint (views_of off cks) = true.
+Proof.
+  revert off. induction cks as [|ck r IH]; intros off; cbn [views_of views_disjoint]; [reflexivity|].
+  rewrite IH, andb_true_r. apply forallb_forall. intros w Hw. apply views_of_range in Hw.
+  cbn [view_of v_buf v_off v_len]. destruct Hw as (Hb & Ho & _).
+  apply orb_true_iff. left. apply orb_true_iff. right. apply N.leb_le. lia.
+Qed.
+
+Lemma views_in_buffer cks : forallb (view_ok [total cks]) (views_of 0 cks) = true.
+Proof.
+  apply forallb_forall. intros v Hv. apply views_of_range in Hv. destruct Hv as (Hb & _ & He).
+  unfold view_ok, nthN. rewrite Hb. cbn [N.to_nat nth_error]. apply N.leb_le. lia.
+Qed.
+
+Lemma nth_views_of off l1 ck l2 :
+  nth_error (views_of off (l1 ++ ck :: l2)) (length l1) = Some (view_of (off + total l1) ck).
+Proof.
+  rewrite views_of_app. rewrite nth_error_app2 by (rewrite views_of_length; lia).
+  rewrite views_of_length, Nat.sub_diag. reflexivity.
+Qed.
+Lemma nth_accs_of i l1 ck l2 :
+  nth_error (accs_of i (l1 ++ ck :: l2)) (length l1) = Some (acc_of (i + len l1) ck).
+Proof.
+  rewrite accs_of_app. rewrite nth_error_app2 by (rewrite accs_of_length; lia).
+  rewrite accs_of_length, Nat.sub_diag. reflexivity.
+Qed.
+
+Lemma code_size_comp c : code_size (comp_code c) = comp_size c.
+Proof. destruct c; reflexivity. Qed.
+Lemma comp_size_pos c : 0 < comp_size c.
+Proof. destruct c; cbn; lia. Qed.
+
+(* accessor n of a canonical document: it is [acc_of n ck], its view is view n, and it fills it exactly *)
+Lemma acc_view_of cks n ck : nth_error cks n = Some ck ->
+  nth_error (accs_of 0 cks) n = Some (acc_of (N.of_nat n) ck) /\
+  nth_error (views_of 0 cks) n = Some (view_of (total (firstn n cks)) ck).
+Proof.
+  intros H. apply nth_error_split in H. destruct H as (l1 & l2 & -> & <-). split.
+  - rewrite nth_accs_of. reflexivity.
+  - rewrite nth_views_of. rewrite firstn_app, Nat.sub_diag, firstn_all. cbn [firstn]. rewrite app_nil_r. reflexivity.
+Qed.
+
+Lemma acc_ok_of cks : Forall (fun ck => 0 < ck_k ck) cks ->
+  forallb (acc_ok (views_of 0 cks)) (accs_of 0 cks) = true.
+Proof.
+  intros Hk. apply forallb_forall. intros a Ha. apply In_nth_error in Ha. destruct Ha as (n & Ha).
+  assert (Hn : (n < length cks)%nat).
+  { rewrite <- (accs_of_length 0 cks). apply nth_error_Some. congruence. }
+  destruct (nth_error cks n) as [ck|] eqn:E; [|apply nth_error_None in E; lia].
+  destruct (acc_view_of cks n ck E) as (E1 & E2). rewrite Ha in E1. apply some_inj in E1. subst a.
+  unfold acc_ok. cbn [a_view acc_of]. unfold nthN. rewrite Nat2N.id, E2.
+  cbn [a_comp a_k a_off a_count acc_of v_len view_of]. rewrite code_size_comp.
+  pose proof (comp_size_pos (ck_comp ck)). rewrite Forall_forall in Hk. pose proof (Hk ck (nth_error_In _ _ E)).
+  unfold ck_size. apply andb_true_iff; split; [apply andb_true_iff; split|].
+  - apply negb_true_iff. apply N.eqb_neq. lia.
+  - apply negb_true_iff. apply N.eqb_neq. lia.
+  - apply N.leb_le. lia.
+Qed.
+
+(* ------------------------------------------------------------------ bytes and decoding *)
+Definition elem_ok (c : comp) (k : N) (e : elem) : Prop :=
+  length e = N.to_nat k /\ Forall (fun w => w < 256 ^ comp_size c) e.
+Definition vdata_ok (c : comp) (k : N) (d : vdata) : Prop := Forall (fun r => elem_ok c k (snd r)) d.
+Definition chunk_ok (ck : chunk) : Prop := 0 < ck_k ck /\ vdata_ok (ck_comp ck) (ck_k ck) (ck_data ck).
+
+Lemma enc_length c w : length (enc c w) = N.to_nat (comp_size c).
+Proof. destruct c; reflexivity. Qed.
+Lemma enc_elem_length c e : length (enc_elem c e) = (length e * N.to_nat (comp_size c))%nat.
+Proof.
+  unfold enc_elem. induction e as [|w e IH]; cbn [flat_map length]; [reflexivity|].
+  rewrite app_length, enc_length, IH. lia.
+Qed.
+Lemma expand_ok c k d : vdata_ok c k d -> Forall (elem_ok c k) (expand d).
+Proof.
+  unfold vdata_ok, expand. induction d as [|[n e] d IH]; intros H; cbn [flat_map]; [constructor|].
+  inversion H; subst. apply Forall_app. split; [|auto].
+  apply Forall_forall. intros x Hx. apply repeat_spec in Hx. subst. assumption.
+Qed.
+Lemma length_expand d : length (expand d) = N.to_nat (vcount d).
+Proof.
+  unfold expand, vcount. induction d as [|[n e] d IH]; cbn [flat_map fold_right fst snd]; [reflexivity|].
+  rewrite app_length, repeat_length, IH. lia.
+Qed.
+Lemma elems_bytes_length c k es : Forall (elem_ok c k) es ->
+  length (flat_map (enc_elem c) es) = (length es * (N.to_nat k * N.to_nat (comp_size c)))%nat.
+Proof.
+  induction 1 as [|e es (Hl & _) _ IH]; cbn [flat_map length]; [reflexivity|].
+  rewrite app_length, enc_elem_length, IH, Hl. lia.
+Qed.
+Lemma chunk_bytes_len ck : chunk_ok ck -> len (chunk_bytes ck) = ck_size ck.
+Proof.
+  intros (_ & H). unfold chunk_bytes, len, ck_size, ck_count.
+  rewrite (elems_bytes_length _ _ _ (expand_ok _ _ _ H)), length_expand. lia.
+Qed.
+Lemma bytes_total cks : Forall chunk_ok cks -> len (flat_map chunk_bytes cks) = total cks.
+Proof.
+  induction 1 as [|ck r H _ IH]; cbn [flat_map total]; [reflexivity|].
+  rewrite len_app', IH, (chunk_bytes_len _ H). reflexivity.
+Qed.
+
+Lemma le_value_enc c w : w < 256 ^ comp_size c -> le_value (enc c w) = w.
+Proof.
+  destruct c; cbn [comp_size enc]; intros H.
+  - change (256 ^ 4) with 4294967296 in H. unfold le32, le_value. cbn [fold_right]. lia.
+  - change (256 ^ 1) with 256 in H. unfold le_value. cbn [fold_right]. lia.
+  - change (256 ^ 2) with 65536 in H. unfold le16, le_value. cbn [fold_right]. lia.
+  - change (256 ^ 4) with 4294967296 in H. unfold le32, le_value. cbn [fold_right]. lia.
+Qed.
+Lemma get_words_enc c e r : Forall (fun w => w < 256 ^ comp_size c) e ->
+  get_words (N.to_nat (comp_size c)) (length e) (enc_elem c e ++ r) = Some (e, r).
+Proof.
+  induction 1 as [|w e Hw _ IH]; cbn [length get_words enc_elem flat_map]; [reflexivity|].
+  rewrite <- app_assoc. rewrite <- (enc_length c w), take_app. cbn [bind].
+  fold (enc_elem c e). rewrite enc_length, IH. cbn [bind]. rewrite (le_value_enc _ _ Hw). reflexivity.
+Qed.
+Lemma get_elems_enc c k es r : Forall (elem_ok c k) es ->
+  get_elems (N.to_nat (comp_size c)) (N.to_nat k) (length es) (flat_map (enc_elem c) es ++ r) = Some es.
+Proof.
+  induction 1 as [|e es (Hl & Hw) _ IH]; cbn [length get_elems flat_map]; [reflexivity|].
+  rewrite <- app_assoc, <- Hl, (get_words_enc _ _ _ Hw). cbn [bind]. rewrite Hl, IH. reflexivity.
+Qed.
+
+Lemma skipn_app_exact {A} (a b : list A) n : n = length a -> skipn n (a ++ b) = b.
+Proof. intros ->. rewrite skipn_app, skipn_all, Nat.sub_diag. reflexivity. Qed.
+
+(* decoding accessor n of a canonical document from its buffer returns the elements of chunk n in order *)
+Theorem decode_canonical cks n ck : Forall chunk_ok cks -> nth_error cks n = Some ck ->
+  decode_acc (views_of 0 cks) (flat_map chunk_bytes cks) (acc_of (N.of_nat n) ck) = Some (expand (ck_data ck)).
+Proof.
+  intros Hok Hn. destruct (acc_view_of cks n ck Hn) as (_ & Hv).
+  pose proof Hn as Hs. apply nth_error_split in Hs. destruct Hs as (l1 & l2 & Hc & Hl).
+  assert (Hck : chunk_ok ck) by (rewrite Forall_forall in Hok; apply Hok; eapply nth_error_In; eauto).
+  assert (H1 : Forall chunk_ok l1) by (rewrite Hc in Hok; apply Forall_app in Hok; tauto).
+  unfold decode_acc. cbn [a_view acc_of bind]. rewrite Nat2N.id, Hv. cbn [bind].
+  cbn [a_comp a_k a_off a_count acc_of v_len v_off view_of]. rewrite code_size_comp.
+  destruct Hck as (Hk & Hd). pose proof (comp_size_pos (ck_comp ck)) as Hp.
+  replace ((comp_size (ck_comp ck) =? 0) || (ck_k ck =? 0)) with false by lia.
+  unfold ck_size. replace (_ <? _) with false by lia.
+  assert (Hf : firstn n cks = l1) by (subst cks n; rewrite firstn_app, Nat.sub_diag, firstn_all; cbn; apply app_nil_r).
+  rewrite Hf. subst cks. rewrite flat_map_app. cbn [flat_map]. rewrite skipn_app_exact.
+  - unfold chunk_bytes at 1. unfold ck_count. rewrite <- length_expand.
+    apply get_elems_enc. apply expand_ok, Hd.
+  - pose proof (bytes_total _ H1) as E. unfold len in E. lia.
+Qed.
